@@ -100,7 +100,10 @@ fn copy_worker(work: cbc::Receiver<Operation>, config: &Arc<Config>, updates: Ar
                 // send back any errors as they may have occurred
                 // before the copy started..
                 let r = CopyHandle::new(&from, &to, config)
-                    .and_then(|hdl| hdl.copy_file(&updates));
+                    .and_then(|hdl| {
+                        hdl.copy_file(&updates)?;
+                        hdl.finalise()
+                    });
                 if let Err(e) = r {
                     updates.send(StatusUpdate::Error(XcpError::CopyError(e.to_string())))?;
                     error!("Error copying: {:?} -> {:?}; aborting.", from, to);
